@@ -16,7 +16,7 @@ var enumNames = []string{"Color", "Mode", "unit_kind"}
 
 // enum type names that are Go keywords / predeclared identifiers / the json import (F-20h, fix 08)
 var reservedEnumNames = []string{"int", "string", "type", "json", "error", "range", "any", "nil", "float64"}
-var enumValuePool = []string{"red", "_", "ON_", "RED", "DARK_BLUE", "light_green", "MiXed", "X1", "A_1", "a_b_c", "ON", "OFF", "VERY_LONG_VALUE_NAME", "x", "Z9_z", "TRAILING_", "DOUBLE__UNDER"}
+var enumValuePool = []string{"red", "_", "ON_", "RED", "DARK_BLUE", "light_green", "MiXed", "X1", "A_1", "a_b_c", "ON", "OFF", "VERY_LONG_VALUE_NAME", "x", "Z9_z", "TRAILING_", "DOUBLE__UNDER", "aB", "a_b", "AB", "A_B", "Ab", "_a", "a_", "a__b", "_9", "z_9_"}
 var fieldNamePool = []string{"id", "name", "age", "score", "ok", "tags", "matrix", "kind", "color", "next", "items", "owner", "peer", "value", "ratio", "note", "x1", "fooBar", "snake_case", "URL", "Zed", "iD2", "q"}
 
 // camel mirrors the generator's constant naming only to keep *generated schemas* free of colliding
@@ -96,6 +96,7 @@ func genSchema(r *hx.Rand) SchemaSpec {
 		fieldTypes[name] = f
 		return f
 	}
+	diffTypes := r.Chance(1, 3)
 	ifaceFields := map[string][]FieldSpec{}
 	for _, in := range ifs {
 		var fs []FieldSpec
@@ -119,7 +120,13 @@ func genSchema(r *hx.Rand) SchemaSpec {
 		}
 		for _, n := range pickN(r, fieldNamePool, r.Range(1, 5)) {
 			if t.Field(n) == nil {
-				t.Fields = append(t.Fields, field(n))
+				f := field(n)
+				if diffTypes && r.Chance(1, 3) {
+					// the same field name with a different type on a different object type (members of one union,
+					// implementers of one interface): fragments on both must use different response keys
+					f = FieldSpec{Name: n, Type: fieldType(true), HasArg: f.HasArg}
+				}
+				t.Fields = append(t.Fields, f)
 			}
 		}
 		s.Types = append(s.Types, t)
@@ -132,8 +139,10 @@ func genSchema(r *hx.Rand) SchemaSpec {
 					t := &s.Types[ti]
 					t.Ifaces = append(t.Ifaces, in)
 					for _, f := range ifaceFields[in] {
-						if t.Field(f.Name) == nil {
+						if own := t.Field(f.Name); own == nil {
 							t.Fields = append(t.Fields, f)
+						} else {
+							*own = f // an implementer's field has the interface's type
 						}
 					}
 					break
@@ -297,7 +306,7 @@ type opGen struct {
 	usedCollide        bool
 }
 
-var aliasPool = []string{"a1", "first", "other", "Zed2", "fooBar2", "snake_case2", "URL2", "x", "y", "it", "res", "val", "n0", "Key", "aB"}
+var aliasPool = []string{"a1", "first", "other", "Zed2", "fooBar2", "snake_case2", "URL2", "x", "y", "it", "res", "val", "n0", "Key", "aB", "a_b", "AB", "a_B", "z_9_", "x_", "URL_2"}
 
 func (g *opGen) freshKey(sc *scope) string {
 	for i := 0; i < 20; i++ {
@@ -470,9 +479,30 @@ func (g *opGen) selSet(parent string, depth int, sc *scope) []Sel {
 			}
 			switch g.collide {
 			case "dup-cond":
-				body := g.selSet(s.Cond, g.maxDepth, sc)
-				if len(body) > 0 {
-					sels = append(sels, Sel{Kind: "i", Cond: s.Cond, Sels: body})
+				// repeated type conditions in every order (A A B C B; B A B A; three repeats), some of the repeats
+				// nested in an inline fragment without a type condition
+				var typed []string
+				for _, t := range sels {
+					if t.Kind == "i" && t.Cond != "" {
+						typed = append(typed, t.Cond)
+					}
+				}
+				for rep, n := 0, g.r.Range(1, 4); rep < n; rep++ {
+					cond := hx.Pick(g.r, typed)
+					body := g.selSet(cond, g.maxDepth, sc)
+					if len(body) == 0 {
+						continue
+					}
+					dup := Sel{Kind: "i", Cond: cond, Sels: body}
+					if g.r.Chance(1, 3) {
+						inner := []Sel{dup}
+						if pt.Kind != "object" {
+							inner = []Sel{{Kind: "f", Name: "__typename"}, dup}
+						}
+						dup = Sel{Kind: "i", Sels: inner}
+					}
+					pos := g.r.Intn(len(sels) + 1)
+					sels = append(sels[:pos], append([]Sel{dup}, sels[pos:]...)...)
 					g.usedCollide = true
 				}
 			case "holder-vs-key":
@@ -883,6 +913,21 @@ func genCase(r *hx.Rand, idx int) Case {
 			}
 		}
 		c.Label = "anonymous-operation"
+	case stream >= 48 && stream < 54:
+		if longIdentifiers(r, &c) {
+			c.Label = "long-identifiers"
+		}
+	case stream >= 44 && stream < 48:
+		// identifiers at the edge of the Go scopes (findings F-20i/j/k and their near misses, which must pass)
+		if k := scopeEdge(r, &c); k != "" {
+			c.Label = "scope-edge:" + k
+		}
+	case stream >= 37 && stream < 44:
+		// response keys that differ only in letter case in fragments on *different object types*: they never
+		// meet in one response object (inside the envelope and inside decode_preserves_leaves)
+		if caseVariantAcrossFragments(r, &c.Schema, &c) {
+			c.Label = "case-variant-across-disjoint-fragments"
+		}
 	case stream < 37:
 		// enum constants that collide after camel-casing (F-20f shape), only if an operation selects the enum
 		for ti := range c.Schema.Types {
@@ -925,11 +970,32 @@ func declaredDirectiveUses(spec *SchemaSpec) (declared, undeclared []string) {
 	return
 }
 
+// effectiveDirectiveUses: declared directives with a value that removes the selection from the
+// response (the keys are absent from the executor's data; the decoded fields keep their zero values).
+func effectiveDirectiveUses(spec *SchemaSpec) []string {
+	var out []string
+	switch spec.Dirs {
+	case "", "custom":
+		out = []string{"@skip(if: true)", "@include(if: false)"}
+	case "skip":
+		out = []string{"@skip(if: true)"}
+	case "include":
+		out = []string{"@include(if: false)"}
+	}
+	return out
+}
+
+// removesSelection: the directive (as written by the harness) takes the selection out of the response.
+func removesSelection(dir string) bool {
+	return dir == "@skip(if: true)" || dir == "@include(if: false)"
+}
+
 // attachDirectives puts directives on some selections (fields, inline fragments, spreads). Declared
 // ones mostly; when forceInline is set (the repeated-type-condition stream) inline fragments get one
 // with probability 1/2. Reports whether an undeclared directive was used.
 func attachDirectives(r *hx.Rand, spec *SchemaSpec, sels []Sel, forceInline, allowUndeclared bool) bool {
 	declared, undecl := declaredDirectiveUses(spec)
+	effective := effectiveDirectiveUses(spec)
 	used := false
 	var walk func(ss []Sel)
 	walk = func(ss []Sel) {
@@ -943,6 +1009,10 @@ func attachDirectives(r *hx.Rand, spec *SchemaSpec, sels []Sel, forceInline, all
 				if allowUndeclared && len(undecl) > 0 && (len(declared) == 0 || r.Chance(1, 4)) {
 					pool = undecl
 					used = true
+				} else if len(effective) > 0 && !forceInline && !(ss[i].Kind == "f" && ss[i].Name == "__typename") && r.Chance(1, 3) {
+					// a directive that really removes the selection (never __typename: the property asks for it to
+					// be selected wherever fragments are applied)
+					pool = effective
 				}
 				if len(pool) > 0 {
 					ss[i].Dir = hx.Pick(r, pool)
@@ -953,4 +1023,326 @@ func attachDirectives(r *hx.Rand, spec *SchemaSpec, sels []Sel, forceInline, all
 	}
 	walk(sels)
 	return used
+}
+
+// swapFirstCase: the key with the case of its first letter swapped (`x` ↦ `X`, `URL` ↦ `uRL`).
+func swapFirstCase(k string) string {
+	if k == "" {
+		return k
+	}
+	c := k[0]
+	switch {
+	case c >= 'a' && c <= 'z':
+		return string(c-32) + k[1:]
+	case c >= 'A' && c <= 'Z':
+		return string(c+32) + k[1:]
+	}
+	return k
+}
+
+// caseVariantAcrossFragments looks for a selection set with two inline fragments on different object
+// types and aliases a field of the second to a case variant of a key of the first. Reports whether it
+// changed anything. (Whether the result is valid / inside the envelope is decided by the real validator
+// and by inEnvelope.)
+func caseVariantAcrossFragments(r *hx.Rand, spec *SchemaSpec, c *Case) bool {
+	isObj := func(n string) bool { t := spec.Type(n); return t != nil && t.Kind == "object" }
+	var try func(ss []Sel) bool
+	try = func(ss []Sel) bool {
+		var frags []int
+		direct := map[string]bool{}
+		for i := range ss {
+			if ss[i].Kind == "i" && isObj(ss[i].Cond) {
+				frags = append(frags, i)
+			}
+			if ss[i].Kind == "f" {
+				direct[strings.ToLower(ss[i].Key())] = true
+			}
+		}
+		for _, ia := range frags {
+			for _, ib := range frags {
+				a, b := &ss[ia], &ss[ib]
+				if ia == ib || a.Cond == b.Cond {
+					continue
+				}
+				for _, sa := range a.Sels {
+					if sa.Kind != "f" || sa.Name == "__typename" || direct[strings.ToLower(sa.Key())] {
+						continue
+					}
+					v := swapFirstCase(sa.Key())
+					if v == sa.Key() {
+						continue
+					}
+					taken := false
+					for _, sb := range b.Sels {
+						if sb.Kind == "f" && strings.EqualFold(sb.Key(), v) {
+							taken = true
+						}
+					}
+					if taken {
+						continue
+					}
+					for j := range b.Sels {
+						sb := &b.Sels[j]
+						if sb.Kind == "f" && sb.Name != "__typename" && r.Chance(2, 3) {
+							sb.Alias = v
+							return true
+						}
+					}
+				}
+			}
+		}
+		for i := range ss {
+			if try(ss[i].Sels) {
+				return true
+			}
+		}
+		return false
+	}
+	for di := range c.Docs {
+		for fi := range c.Docs[di].Defs {
+			if try(c.Docs[di].Defs[fi].Sels) {
+				return true
+			}
+		}
+	}
+	return false
+}
+
+// renameEnum renames an enum type and every reference to it.
+func renameEnum(spec *SchemaSpec, from, to string) {
+	for ti := range spec.Types {
+		if spec.Types[ti].Kind == "enum" && spec.Types[ti].Name == from {
+			spec.Types[ti].Name = to
+		}
+		for fi := range spec.Types[ti].Fields {
+			t := &spec.Types[ti].Fields[fi].Type
+			for t.Of != nil {
+				t = t.Of
+			}
+			if t.Name == from {
+				t.Name = to
+			}
+		}
+	}
+}
+
+// scopeEdge edits a valid case so that a generated identifier sits at the edge of a Go scope: an enum
+// type named like a parameter of the generated method (F-20k) or almost, an enum whose name is another
+// enum's constant (F-20i) or almost, a response key whose Go name is Typename__ next to __typename
+// (F-20j) or almost. Returns what it did ("" = nothing). The outcome is decided by the oracles and, for
+// the three open findings, by their classifiers.
+func scopeEdge(r *hx.Rand, c *Case) string {
+	var enums []int
+	for ti, t := range c.Schema.Types {
+		if t.Kind == "enum" {
+			enums = append(enums, ti)
+		}
+	}
+	switch r.Intn(3) {
+	case 0:
+		if len(enums) == 0 {
+			return ""
+		}
+		to := hx.Pick(r, []string{"s", "b", "base", "err", "S", "B", "bb", "sel", "selfie", "t", "v"})
+		if c.Schema.Type(to) != nil {
+			return ""
+		}
+		renameEnum(&c.Schema, c.Schema.Types[enums[0]].Name, to)
+		return "enum-named-" + to
+	case 1:
+		if len(enums) == 0 {
+			return ""
+		}
+		e := c.Schema.Types[enums[0]]
+		cs := enumConstantsRef(&e)
+		if len(cs) == 0 {
+			return ""
+		}
+		name := cs[r.Intn(len(cs))]
+		kind := "enum-named-like-constant"
+		if r.Chance(1, 2) {
+			name += "_" // a near miss: no clash
+			kind = "enum-named-almost-like-constant"
+		}
+		if c.Schema.Type(name) != nil {
+			return ""
+		}
+		c.Schema.Types = append(c.Schema.Types, TypeSpec{Kind: "enum", Name: name, Values: []string{"X", "y_z"}})
+		q := c.Schema.Type(c.Schema.Query)
+		if q == nil || q.Field("zz9") != nil {
+			return ""
+		}
+		q.Fields = append(q.Fields, FieldSpec{Name: "zz9", Type: named(name)})
+		for di := range c.Docs {
+			for fi := range c.Docs[di].Defs {
+				if c.Docs[di].Defs[fi].Kind == "query" {
+					c.Docs[di].Defs[fi].Sels = append(c.Docs[di].Defs[fi].Sels, Sel{Kind: "f", Name: "zz9"})
+					return kind
+				}
+			}
+		}
+		return ""
+	default:
+		alias := hx.Pick(r, []string{"typename__", "Typename__", "TYPENAME__", "tYPENAME__", "typename_", "typename"})
+		var try func(ss []Sel) bool
+		try = func(ss []Sel) bool {
+			hasTn := false
+			for _, s := range ss {
+				if s.Kind == "f" && s.Key() == "__typename" {
+					hasTn = true
+				}
+				if s.Kind == "f" && strings.EqualFold(s.Key(), alias) {
+					return false
+				}
+			}
+			if hasTn {
+				for i := range ss {
+					if ss[i].Kind == "f" && ss[i].Name != "__typename" {
+						ss[i].Alias = alias
+						return true
+					}
+				}
+			}
+			for i := range ss {
+				if try(ss[i].Sels) {
+					return true
+				}
+			}
+			return false
+		}
+		for di := range c.Docs {
+			for fi := range c.Docs[di].Defs {
+				if try(c.Docs[di].Defs[fi].Sels) {
+					return "key-" + alias + "-next-to-typename"
+				}
+			}
+		}
+		return ""
+	}
+}
+
+// longName: `base` padded to exactly n bytes with a repeating tail (n = 33..48, 64, 255, 300).
+func longName(base string, n int) string {
+	pad := "_longIdentifier9"
+	for len(base) < n {
+		base += pad
+	}
+	return base[:n]
+}
+
+func pickLen(r *hx.Rand) int {
+	return hx.Pick(r, []int{33, 40, 48, 64, 255, 300})
+}
+
+// renameType renames a type everywhere in the schema and the documents.
+func renameType(c *Case, from, to string) {
+	sp := &c.Schema
+	for ti := range sp.Types {
+		t := &sp.Types[ti]
+		if t.Name == from {
+			t.Name = to
+		}
+		for i := range t.Ifaces {
+			if t.Ifaces[i] == from {
+				t.Ifaces[i] = to
+			}
+		}
+		for i := range t.Members {
+			if t.Members[i] == from {
+				t.Members[i] = to
+			}
+		}
+		for fi := range t.Fields {
+			ft := &t.Fields[fi].Type
+			// the type reference is a tree of pointers shared between equal field specs: copy before writing
+			*ft = renameRef(*ft, from, to)
+		}
+	}
+	if sp.Query == from {
+		sp.Query = to
+	}
+	if sp.Mutation == from {
+		sp.Mutation = to
+	}
+	if sp.Subscription == from {
+		sp.Subscription = to
+	}
+	var walk func(ss []Sel)
+	walk = func(ss []Sel) {
+		for i := range ss {
+			if ss[i].Kind == "i" && ss[i].Cond == from {
+				ss[i].Cond = to
+			}
+			walk(ss[i].Sels)
+		}
+	}
+	for di := range c.Docs {
+		for fi := range c.Docs[di].Defs {
+			if c.Docs[di].Defs[fi].Cond == from {
+				c.Docs[di].Defs[fi].Cond = to
+			}
+			walk(c.Docs[di].Defs[fi].Sels)
+		}
+	}
+}
+
+func renameRef(t TypeRef, from, to string) TypeRef {
+	if t.Of != nil {
+		in := renameRef(*t.Of, from, to)
+		return TypeRef{Kind: t.Kind, Of: &in}
+	}
+	if t.Name == from {
+		t.Name = to
+	}
+	return t
+}
+
+// longIdentifiers gives long names (33–48, 64, 255, 300 bytes) to the operations, the fragments, one or
+// two composite types, an enum, and some aliases of a valid case.
+func longIdentifiers(r *hx.Rand, c *Case) bool {
+	c.Docs = cloneCase(*c).Docs
+	// operations and fragments
+	for di := range c.Docs {
+		frag := map[string]string{}
+		for fi := range c.Docs[di].Defs {
+			d := &c.Docs[di].Defs[fi]
+			if d.Name == "" {
+				continue
+			}
+			n := longName(d.Name, pickLen(r))
+			if d.Kind == "frag" {
+				frag[d.Name] = n
+			}
+			d.Name = n
+		}
+		var walk func(ss []Sel)
+		walk = func(ss []Sel) {
+			for i := range ss {
+				if ss[i].Kind == "s" {
+					if n, ok := frag[ss[i].Name]; ok {
+						ss[i].Name = n
+					}
+				}
+				if ss[i].Kind == "f" && ss[i].Alias != "" && ss[i].Name != "__typename" && r.Chance(1, 2) {
+					ss[i].Alias = longName(ss[i].Alias, pickLen(r))
+				}
+				walk(ss[i].Sels)
+			}
+		}
+		for fi := range c.Docs[di].Defs {
+			walk(c.Docs[di].Defs[fi].Sels)
+		}
+	}
+	// types
+	var names []string
+	for _, t := range c.Schema.Types {
+		if t.Name != c.Schema.Query && t.Name != c.Schema.Mutation && t.Name != c.Schema.Subscription && !contains(reservedEnumNames, t.Name) {
+			names = append(names, t.Name)
+		}
+	}
+	hx.Shuffle(r, names)
+	for i := 0; i < len(names) && i < 3; i++ {
+		renameType(c, names[i], longName(names[i], pickLen(r)))
+	}
+	return true
 }
